@@ -113,7 +113,8 @@ Qed.
 
 Lemma node_eqb_refl : forall n, node_eqb n n = true.
 Proof.
-  intros n; unfold node_eqb. rewrite !gty_eqb_refl. cbn. apply ostr_eqb_eq; reflexivity.
+  intros n; unfold node_eqb. rewrite !gty_eqb_refl. cbn.
+  rewrite (proj2 (ostr_eqb_eq _ _) eq_refl). cbn. destruct (ncyc n); reflexivity.
 Qed.
 
 (* ------------------------------------------------------------------------------------------- *)
@@ -129,6 +130,7 @@ Proof. induction t using gty_ind'; cbn; auto. Qed.
 Definition represents (E : env) (n : node) (var : option str) (c : gty) : Prop :=
   nvar n = var /\ nfor n = c /\
   ((ncyc n = false /\ n = mknode c (unwrap c) var) \/
+   (ncyc n = true /\ n = mkdefer c (unwrap c) var /\ can_be_cyclic E (unwrap c) = true) \/
    (ncyc n = true /\ mkref E c (unwrap c) var = Some n /\ can_be_cyclic E (unwrap c) = true)).
 
 Lemma mkref_shape : forall E c u var n, mkref E c u var = Some n ->
@@ -138,63 +140,66 @@ Proof.
   inversion H; subst; cbn; auto.
 Qed.
 
-Lemma expand_sound : forall E kids V path preds V',
-  expand E kids V path = Some (preds, V') ->
+Lemma expand_sound : forall E kids st path preds st',
+  expand E kids st path = Some (preds, st') ->
   forall n, In n preds -> exists var c, In (var, c) kids /\ skip var c = false /\ represents E n var c /\
-    (ncyc n = true -> exists V0, incl V V0 /\ incl V0 V' /\
-                                 revisit c (unwrap c) (seen_set E (unwrap c) V0 path) = true).
+    (ncyc n = true -> exists st0, visitedb E c (unwrap c) var st0 path = true).
 Proof.
-  intros E kids; induction kids as [|[var c] rest IH]; intros V path preds V' H n Hn; cbn in H.
+  intros E kids; induction kids as [|[var c] rest IH]; intros st path preds st' H n Hn; cbn in H.
   - inversion H; subst; contradiction.
   - destruct (skip var c) eqn:Hsk.
     + destruct (IH _ _ _ _ H n Hn) as [v [c' [Hin R]]]. exists v, c'; split; [right; exact Hin | exact R].
-    + destruct (revisit c (unwrap c) (seen_set E (unwrap c) V path) && can_be_cyclic E (unwrap c)) eqn:Hcut.
+    + destruct (visitedb E c (unwrap c) var st path && can_be_cyclic E (unwrap c)) eqn:Hcut.
       * apply andb_true_iff in Hcut; destruct Hcut as [Hrv Hcc].
-        destruct (mkref E c (unwrap c) var) as [r|] eqn:Hmk; [|discriminate].
-        destruct (expand E rest V path) as [[ps V1]|] eqn:Hrest; [|discriminate].
-        inversion H; subst; clear H. destruct Hn as [Hn|Hn].
-        -- subst n. destruct (mkref_shape _ _ _ _ _ Hmk) as [Hc [_ [Hv Hf]]].
-           exists var, c; split; [left; reflexivity|]. split; [exact Hsk|]. split.
-           ++ unfold represents; repeat split; auto.
-           ++ intros _. exists V; split; [apply incl_refl|]. split; [|exact Hrv].
-              clear -Hrest. revert V ps V' Hrest. induction rest as [|[v2 c2] r2 IH2]; intros V ps V' H; cbn in H.
-              ** inversion H; apply incl_refl.
-              ** destruct (skip v2 c2); [eapply IH2; eauto|].
-                 destruct (revisit c2 (unwrap c2) (seen_set E (unwrap c2) V path) && can_be_cyclic E (unwrap c2)).
-                 --- destruct (mkref E c2 (unwrap c2) v2); [|discriminate].
-                     destruct (expand E r2 V path) as [[ps2 V2]|] eqn:H2; [|discriminate]. inversion H; subst. eapply IH2; eauto.
-                 --- destruct (expand E r2 (c2 :: V) path) as [[ps2 V2]|] eqn:H2; [|discriminate]. inversion H; subst.
-                     intros x Hx. eapply IH2; eauto. right; exact Hx.
-        -- destruct (IH _ _ _ _ Hrest n Hn) as [v [c' [Hin [S1 [S2 S3]]]]].
-           exists v, c'; split; [right; exact Hin|]. split; [exact S1|]. split; [exact S2 | exact S3].
-      * destruct (expand E rest (c :: V) path) as [[ps V1]|] eqn:Hrest; [|discriminate].
+        assert (Hcommon : forall r ps, expand E rest st path = Some (ps, st') -> preds = r :: ps ->
+                  ncyc r = true -> represents E r var c ->
+                  exists var0 c0, In (var0, c0) ((var, c) :: rest) /\ skip var0 c0 = false /\ represents E n var0 c0 /\
+                    (ncyc n = true -> exists st0, visitedb E c0 (unwrap c0) var0 st0 path = true)).
+        { intros r ps Hrest Hp Hrc Hrep. subst preds. destruct Hn as [Hn|Hn].
+          - subst n. exists var, c; split; [left; reflexivity|]. split; [exact Hsk|]. split; [exact Hrep|].
+            intros _. exists st; exact Hrv.
+          - destruct (IH _ _ _ _ Hrest n Hn) as [v [c' [Hin [S1 [S2 S3]]]]].
+            exists v, c'; split; [right; exact Hin|]. split; [exact S1|]. split; [exact S2 | exact S3]. }
+        destruct (is_generic E (unwrap c) || should_unwrap c).
+        -- destruct (expand E rest st path) as [[ps st1]|] eqn:Hrest; [|discriminate].
+           inversion H; subst; clear H. apply (Hcommon (mkdefer c (unwrap c) var) ps); auto.
+           unfold represents; cbn; repeat split; auto.
+        -- destruct (mkref E c (unwrap c) var) as [r|] eqn:Hmk; [|discriminate].
+           destruct (expand E rest st path) as [[ps st1]|] eqn:Hrest; [|discriminate].
+           inversion H; subst; clear H. destruct (mkref_shape _ _ _ _ _ Hmk) as [Hc [_ [Hv Hf]]].
+           apply (Hcommon r ps); auto. unfold represents; repeat split; auto.
+      * destruct (expand E rest (push_st c (unwrap c) var st) path) as [[ps st1]|] eqn:Hrest; [|discriminate].
         inversion H; subst; clear H. destruct Hn as [Hn|Hn].
         -- subst n. exists var, c; split; [left; reflexivity|]. split; [exact Hsk|]. split.
            ++ unfold represents; cbn; repeat split; auto.
            ++ cbn; discriminate.
         -- destruct (IH _ _ _ _ Hrest n Hn) as [v [c' [Hin [S1 [S2 S3]]]]].
-           exists v, c'; split; [right; exact Hin|]. split; [exact S1|]. split; [exact S2|].
-           intros Hc; destruct (S3 Hc) as [V0 [I1 [I2 I3]]]. exists V0; split; [|split; [exact I2 | exact I3]].
-           intros x Hx; apply I1; right; exact Hx.
+           exists v, c'; split; [right; exact Hin|]. split; [exact S1|]. split; [exact S2 | exact S3].
 Qed.
 
-Lemma expand_complete : forall E kids V path preds V',
-  expand E kids V path = Some (preds, V') ->
+Lemma expand_complete : forall E kids st path preds st',
+  expand E kids st path = Some (preds, st') ->
   forall var c, In (var, c) kids -> skip var c = false -> exists n, In n preds /\ represents E n var c.
 Proof.
-  intros E kids; induction kids as [|[v0 c0] rest IH]; intros V path preds V' H var c Hin Hsk; cbn in H.
+  intros E kids; induction kids as [|[v0 c0] rest IH]; intros st path preds st' H var c Hin Hsk; cbn in H.
   - contradiction.
   - destruct (skip v0 c0) eqn:Hsk0.
     + destruct Hin as [Heq|Hin]; [inversion Heq; subst; congruence|]. eapply IH; eauto.
-    + destruct (revisit c0 (unwrap c0) (seen_set E (unwrap c0) V path) && can_be_cyclic E (unwrap c0)) eqn:Hcut.
+    + destruct (visitedb E c0 (unwrap c0) v0 st path && can_be_cyclic E (unwrap c0)) eqn:Hcut.
       * apply andb_true_iff in Hcut; destruct Hcut as [_ Hcc].
-        destruct (mkref E c0 (unwrap c0) v0) as [r|] eqn:Hmk; [|discriminate].
-        destruct (expand E rest V path) as [[ps V1]|] eqn:Hrest; [|discriminate].
-        inversion H; subst; clear H. destruct Hin as [Heq|Hin].
-        -- inversion Heq; subst. exists r; split; [left; reflexivity|].
-           destruct (mkref_shape _ _ _ _ _ Hmk) as [Hc [_ [Hv Hf]]]. unfold represents; repeat split; auto.
-        -- destruct (IH _ _ _ _ Hrest var c Hin Hsk) as [n [Hn R]]. exists n; split; [right; exact Hn | exact R].
-      * destruct (expand E rest (c0 :: V) path) as [[ps V1]|] eqn:Hrest; [|discriminate].
+        destruct (is_generic E (unwrap c0) || should_unwrap c0).
+        -- destruct (expand E rest st path) as [[ps st1]|] eqn:Hrest; [|discriminate].
+           inversion H; subst; clear H. destruct Hin as [Heq|Hin].
+           ++ inversion Heq; subst. exists (mkdefer c (unwrap c) var); split; [left; reflexivity|].
+              unfold represents; cbn; repeat split; auto.
+           ++ destruct (IH _ _ _ _ Hrest var c Hin Hsk) as [n [Hn R]]. exists n; split; [right; exact Hn | exact R].
+        -- destruct (mkref E c0 (unwrap c0) v0) as [r|] eqn:Hmk; [|discriminate].
+           destruct (expand E rest st path) as [[ps st1]|] eqn:Hrest; [|discriminate].
+           inversion H; subst; clear H. destruct Hin as [Heq|Hin].
+           ++ inversion Heq; subst. exists r; split; [left; reflexivity|].
+              destruct (mkref_shape _ _ _ _ _ Hmk) as [Hc [_ [Hv Hf]]]. unfold represents; repeat split; auto.
+           ++ destruct (IH _ _ _ _ Hrest var c Hin Hsk) as [n [Hn R]]. exists n; split; [right; exact Hn | exact R].
+      * destruct (expand E rest (push_st c0 (unwrap c0) v0 st) path) as [[ps st1]|] eqn:Hrest; [|discriminate].
         inversion H; subst; clear H. destruct Hin as [Heq|Hin].
         -- inversion Heq; subst. exists (mknode c (unwrap c) var); split; [left; reflexivity|].
            unfold represents; cbn; repeat split; auto.
@@ -209,7 +214,7 @@ Lemma bfs_entry : forall fuel E q V adj, bfs fuel E q V = Ok adj ->
   forall p preds, In (p, preds) adj ->
     (is_literal (unwrap (ntype p)) = true /\ preds = []) \/
     (is_literal (unwrap (ntype p)) = false /\
-     exists V0 path V1, expand E (level E (unwrap (ntype p))) V0 path = Some (preds, V1)).
+     exists st0 path st1, expand E (level E (unwrap (ntype p))) st0 path = Some (preds, st1)).
 Proof.
   induction fuel as [|f IH]; intros E q V adj H p preds Hin.
   - destruct q as [|[p0 path0] rest]; cbn in H; [inversion H; subst; contradiction | discriminate].
@@ -217,8 +222,8 @@ Proof.
     destruct (is_literal (unwrap (ntype p0))) eqn:Hlit.
     + destruct (bfs f E rest V) as [adj'| |] eqn:Hb; try discriminate. inversion H; subst; clear H.
       destruct Hin as [Heq|Hin]; [inversion Heq; subst; left; auto | eapply IH; eauto].
-    + destruct (expand E (level E (unwrap (ntype p0))) V path0) as [[ps V1]|] eqn:Hex; [|discriminate].
-      destruct (bfs f E (rest ++ pushed path0 ps) V1) as [adj'| |] eqn:Hb; try discriminate.
+    + destruct (expand E (level E (unwrap (ntype p0))) V path0) as [[ps st1]|] eqn:Hex; [|discriminate].
+      destruct (bfs f E (rest ++ pushed path0 ps) st1) as [adj'| |] eqn:Hb; try discriminate.
       inversion H; subst; clear H.
       destruct Hin as [Heq|Hin]; [inversion Heq; subst; right; split; [exact Hlit | eauto] | eapply IH; eauto].
 Qed.
@@ -233,10 +238,10 @@ Proof.
   induction fuel as [|f IH]; intros E q V adj H i p preds Hn.
   - destruct q as [|[p0 path0] rest]; cbn in H; [inversion H; subst; destruct i; discriminate | discriminate].
   - destruct q as [|[p0 path0] rest]; cbn in H; [inversion H; subst; destruct i; discriminate|].
-    assert (Hgen : forall ps V1 adj', bfs f E (rest ++ pushed path0 ps) V1 = Ok adj' -> adj = (p0, ps) :: adj' ->
+    assert (Hgen : forall ps V1 adj', bfs f E (rest ++ pushed path0 ps) st1 = Ok adj' -> adj = (p0, ps) :: adj' ->
               In p (map fst ((p0, path0) :: rest)) \/
               exists j p' preds', j < i /\ nth_error adj j = Some (p', preds') /\ In p preds' /\ ncyc p = false).
-    { intros ps V1 adj' Hb Hadj. subst adj. destruct i as [|i'].
+    { intros ps st1 adj' Hb Hadj. subst adj. destruct i as [|i'].
       - cbn in Hn; inversion Hn; subst. left; left; reflexivity.
       - cbn in Hn. destruct (IH _ _ _ _ Hb _ _ _ Hn) as [Hq|[j [p' [preds' [Hlt [Hnj [Hip Hc]]]]]]].
         + rewrite map_app in Hq. apply in_app_or in Hq. destruct Hq as [Hq|Hq].
@@ -249,9 +254,9 @@ Proof.
     destruct (is_literal (unwrap (ntype p0))) eqn:Hlit.
     + destruct (bfs f E rest V) as [adj'| |] eqn:Hb; try discriminate. inversion H; subst; clear H.
       apply (Hgen [] V adj'); [cbn; rewrite app_nil_r; exact Hb | reflexivity].
-    + destruct (expand E (level E (unwrap (ntype p0))) V path0) as [[ps V1]|] eqn:Hex; [|discriminate].
-      destruct (bfs f E (rest ++ pushed path0 ps) V1) as [adj'| |] eqn:Hb; try discriminate.
-      inversion H; subst; clear H. apply (Hgen ps V1 adj'); [exact Hb | reflexivity].
+    + destruct (expand E (level E (unwrap (ntype p0))) V path0) as [[ps st1]|] eqn:Hex; [|discriminate].
+      destruct (bfs f E (rest ++ pushed path0 ps) st1) as [adj'| |] eqn:Hb; try discriminate.
+      inversion H; subst; clear H. apply (Hgen ps st1 adj'); [exact Hb | reflexivity].
 Qed.
 
 (* every queued node and every non-cyclic predecessor gets an entry of its own *)
@@ -265,8 +270,8 @@ Proof.
     + destruct (bfs f E rest V) as [adj'| |] eqn:Hb; try discriminate. inversion H; subst; clear H.
       destruct Hp as [Hp|Hp]; [cbn in Hp; subst; eexists; left; reflexivity|].
       destruct (IH _ _ _ _ Hb p Hp) as [preds Hin]. exists preds; right; exact Hin.
-    + destruct (expand E (level E (unwrap (ntype p0))) V path0) as [[ps V1]|] eqn:Hex; [|discriminate].
-      destruct (bfs f E (rest ++ pushed path0 ps) V1) as [adj'| |] eqn:Hb; try discriminate.
+    + destruct (expand E (level E (unwrap (ntype p0))) V path0) as [[ps st1]|] eqn:Hex; [|discriminate].
+      destruct (bfs f E (rest ++ pushed path0 ps) st1) as [adj'| |] eqn:Hb; try discriminate.
       inversion H; subst; clear H.
       destruct Hp as [Hp|Hp]; [cbn in Hp; subst; eexists; left; reflexivity|].
       assert (Hq : In p (map fst (rest ++ pushed path0 ps))) by (rewrite map_app; apply in_or_app; left; exact Hp).
@@ -283,8 +288,8 @@ Proof.
     + destruct (bfs f E rest V) as [adj'| |] eqn:Hb; try discriminate. inversion H; subst; clear H.
       destruct Hin as [Heq|Hin]; [inversion Heq; subst; contradiction|].
       destruct (IH _ _ _ _ Hb _ _ _ Hin Hn Hc) as [preds' Hin']. exists preds'; right; exact Hin'.
-    + destruct (expand E (level E (unwrap (ntype p0))) V path0) as [[ps V1]|] eqn:Hex; [|discriminate].
-      destruct (bfs f E (rest ++ pushed path0 ps) V1) as [adj'| |] eqn:Hb; try discriminate.
+    + destruct (expand E (level E (unwrap (ntype p0))) V path0) as [[ps st1]|] eqn:Hex; [|discriminate].
+      destruct (bfs f E (rest ++ pushed path0 ps) st1) as [adj'| |] eqn:Hb; try discriminate.
       inversion H; subst; clear H.
       destruct Hin as [Heq|Hin].
       * inversion Heq; subst.
@@ -326,10 +331,11 @@ Lemma bfs_key_shape : forall fuel E q V adj, bfs fuel E q V = Ok adj ->
 Proof.
   intros fuel E q V adj H Hq p preds Hin. destruct (In_nth_error _ _ Hin) as [i Hi].
   destruct (bfs_keys _ _ _ _ _ H _ _ _ Hi) as [Hr|[j [p' [preds' [_ [Hnj [Hip Hc]]]]]]]; [apply Hq; exact Hr|].
-  apply nth_error_In in Hnj. destruct (bfs_entry _ _ _ _ _ H _ _ Hnj) as [[_ He]|[_ [V0 [path [V1 Hex]]]]].
+  apply nth_error_In in Hnj. destruct (bfs_entry _ _ _ _ _ H _ _ Hnj) as [[_ He]|[_ [st0 [path [st1 Hex]]]]].
   - subst; contradiction.
-  - destruct (expand_sound _ _ _ _ _ _ Hex _ Hip) as [var [c [_ [_ [[_ [_ [[_ Hm]|[Hc' _]]]] _]]]]].
+  - destruct (expand_sound _ _ _ _ _ _ Hex _ Hip) as [var [c [_ [_ [[_ [_ [[_ Hm]|[[Hc' _]|[Hc' _]]]]] _]]]]].
     + subst p; cbn; auto.
+    + congruence.
     + congruence.
 Qed.
 
@@ -412,8 +418,9 @@ Proof.
   { intros r Hr. destruct (gty_eqb c r) eqn:Hcr.
     - apply gty_eqb_eq in Hcr; subst c. rewrite Hr, gty_eqb_refl in HuX; discriminate.
     - destruct (gty_eqb (unwrap c) r) eqn:Hur; [|rewrite orb_false_r; reflexivity].
-      apply gty_eqb_eq in Hur. assert (unwrap r = r) by (rewrite <- Hur; apply unwrap_idem).
-      rewrite Hr in H; subst r. rewrite Hur, gty_eqb_refl in HuX; discriminate. }
+      apply gty_eqb_eq in Hur. assert (Hrr : unwrap r = r) by (rewrite <- Hur; apply unwrap_idem).
+      assert (HcX : unwrap c = X) by congruence.
+      rewrite HcX, gty_eqb_refl in HuX; discriminate. }
   rewrite (A r1 H1), (A r2 H2). reflexivity.
 Qed.
 
@@ -428,14 +435,19 @@ Proof.
   - subst r. exists V2; auto.
   - destruct (skip var c); [eapply IH; eauto|].
     assert (Hsame : revisit c (unwrap c) (seen_set E (unwrap c) V1 p1) = revisit c (unwrap c) (seen_set E (unwrap c) V2 p2)).
-    { unfold seen_set. destruct (is_subscripted E (unwrap c)); [apply Hp | apply HV]. }
+    { unfold seen_set. destruct (is_generic E (unwrap c)); [apply Hp | apply HV]. }
     rewrite <- Hsame.
     destruct (revisit c (unwrap c) (seen_set E (unwrap c) V1 p1) && can_be_cyclic E (unwrap c)).
-    + destruct (mkref E c (unwrap c) var) as [n|]; [|subst r; reflexivity].
-      specialize (IH V1 V2 p1 p2 _ HV Hp eq_refl).
-      destruct (expand E rest V1 p1) as [[ps V1']|]; subst r.
-      * destruct IH as [V2' [H2 Hs]]. rewrite H2. exists V2'; auto.
-      * rewrite IH; reflexivity.
+    + destruct (is_generic E (unwrap c) || should_unwrap c).
+      * specialize (IH V1 V2 p1 p2 _ HV Hp eq_refl).
+        destruct (expand E rest V1 p1) as [[ps V1']|]; subst r.
+        -- destruct IH as [V2' [H2 Hs]]. rewrite H2. exists V2'; auto.
+        -- rewrite IH; reflexivity.
+      * destruct (mkref E c (unwrap c) var) as [n|]; [|subst r; reflexivity].
+        specialize (IH V1 V2 p1 p2 _ HV Hp eq_refl).
+        destruct (expand E rest V1 p1) as [[ps V1']|]; subst r.
+        -- destruct IH as [V2' [H2 Hs]]. rewrite H2. exists V2'; auto.
+        -- rewrite IH; reflexivity.
     + specialize (IH (c :: V1) (c :: V2) p1 p2 _ (sim_cons _ _ c HV) Hp eq_refl).
       destruct (expand E rest (c :: V1) p1) as [[ps V1']|]; subst r.
       * destruct IH as [V2' [H2 Hs]]. rewrite H2. exists V2'; auto.
@@ -484,12 +496,13 @@ Proof.
   assert (Hs : sim [r1; unwrap r1] [r2; unwrap r1]) by (apply sim_roots; auto).
   destruct (is_literal (unwrap r1)).
   - rewrite (bfs_sim f E [] [] [r2; unwrap r1] [r1; unwrap r1]); [|constructor|intros c; symmetry; apply Hs].
-    destruct (bfs f E [] [r1; unwrap r1]); reflexivity.
+    destruct (bfs f E [] [r1; unwrap r1]); cbn; try reflexivity; unfold root_node; rewrite <- Hu; reflexivity.
   - pose proof (expand_sim E (level E (unwrap r1)) _ _ _ _ _ Hs Hs eq_refl) as Hex.
     destruct (expand E (level E (unwrap r1)) [r1; unwrap r1] [r1; unwrap r1]) as [[preds V1']|].
     + destruct Hex as [V2' [H2 Hs2]]. rewrite H2. cbn [app].
       rewrite (bfs_sim f E (pushed [r2; unwrap r1] preds) (pushed [r1; unwrap r1] preds) V2' V1').
-      * destruct (bfs f E (pushed [r1; unwrap r1] preds) V1'); reflexivity.
+      * destruct (bfs f E (pushed [r1; unwrap r1] preds) V1'); cbn; try reflexivity;
+          unfold root_node; rewrite <- Hu; reflexivity.
       * apply qsim_pushed. intros c; symmetry; apply Hs.
       * intros c; symmetry; apply Hs2.
     + rewrite Hex. reflexivity.
